@@ -445,6 +445,23 @@ func (r *Run) finish(c Cmd, pred Pred, rm map[string]any, p *Proc, post *Obs) *M
 			for _, t := range asList(rm["tasks"]) {
 				newIDs = append(newIDs, str(asMap(t), "id"))
 			}
+		} else if c.Human && c.Plan != nil {
+			// human output carries no ids: find the new items by their titles
+			for _, id := range post.IDs() {
+				oi := post.Items[id]
+				if r.M.Items[id] == nil && oi.InList && oi.Kind == "epic" && oi.LTitle == *c.Plan.Title {
+					newIDs = []string{id}
+					for _, t := range c.Plan.Tasks {
+						for _, tid := range post.IDs() {
+							ti := post.Items[tid]
+							if r.M.Items[tid] == nil && ti.InList && ti.LEpic == id && ti.LTitle == *t.Title {
+								newIDs = append(newIDs, tid)
+							}
+						}
+					}
+					break
+				}
+			}
 		}
 	}
 	if pred.Creates > 0 {
